@@ -902,8 +902,72 @@ def refused_write_hook_stream(ctx, res):
                     res.violate("C12:write-hook-changed-state", "an assignment refused by the field's write hook __setval__ changed the configuration (value, tree or user-defined status)",
                                 dict(case, before=repr(before)[:200], after=repr(after)[:200]))
 
+def dynamic_reset_and_item_defaults_stream(ctx, res):
+    """(a) a field added on the fly to a dynamic configuration (root and section), assigned or loaded, and then RESET: it reads None and
+    is reported as not user-defined, again after a second set / reset cycle; (b) callable defaults of an ITEM schema are evaluated
+    anew for every item that is built from a map — default items, loaded items, appended maps, items of items, in a second
+    configuration — and the items report those fields as not user-defined"""
+    import cincoconfig as cc
+    # (a)
+    for where in ("root", "section"):
+        for how in ("assigned", "loaded"):
+            s = cc.Schema(dynamic=True)
+            s.name = cc.StringField(default="n")
+            s.plugins = cc.Schema(dynamic=True)
+            cfg = s()
+            key = "color" if where == "root" else "plugins.cache"
+            case = {"stream": "dynamic-reset", "where": where, "how": how}
+            res.case(stable(case), kind="dynamic-reset")
+            try:
+                states = []
+                for cycle in range(2):
+                    if how == "assigned":
+                        cfg[key] = "blue"
+                    else:
+                        cfg.load_tree({"color": "blue"} if where == "root" else {"plugins": {"cache": "blue"}})
+                    states.append((cfg[key], cc.is_value_defined(cfg, key)))
+                    cc.reset_value(cfg, key)
+                    states.append((cfg[key], cc.is_value_defined(cfg, key)))
+            except Exception as e:  # noqa
+                states = "raised %s: %s" % (type(e).__name__, str(e)[:60])
+            if states != [("blue", True), (None, False), ("blue", True), (None, False)]:
+                res.violate("C12:reset", "resetting a field that was added on the fly to a dynamic configuration does not restore 'unset and not user-defined'", dict(case, states=repr(states)))
+    # (b)
+    counter = {"n": 0}
+
+    def token():
+        counter["n"] += 1
+        return "tok-%d" % counter["n"]
+    step = cc.Schema()
+    step.name = cc.StringField(default="s")
+    step.token = cc.StringField(default=token)
+    job = cc.Schema()
+    job.name = cc.StringField(default="j")
+    job.token = cc.StringField(default=token)
+    job.steps = cc.ListField(step, default=lambda: [{"name": "s0"}, {"name": "s1"}])
+    for typed in (False, True):
+        J = cc.make_type(job, "C12Job") if typed else job
+        s = cc.Schema()
+        s.sec.jobs = cc.ListField(J, default=lambda: [{"name": "d0"}, {"name": "d1"}])
+        case = {"stream": "item-defaults", "config_type": typed}
+        res.case(stable(case), kind="item-defaults")
+        try:
+            a = s()
+            a.sec.jobs.append({"name": "appended"})
+            a.load_tree({"sec": {"jobs": [{"name": "l0"}, {"name": "l1", "steps": [{"name": "x"}, {"name": "y"}]}]}})
+            a.sec.jobs.append({"name": "appended-2"})
+            b = s()
+            toks = [j.token for j in a.sec.jobs] + [st.token for j in a.sec.jobs for st in j.steps] + [j.token for j in b.sec.jobs]
+            undefined = all(not cc.is_value_defined(j, "token") for j in list(a.sec.jobs) + list(b.sec.jobs))
+        except Exception as e:  # noqa
+            toks, undefined = "raised %s: %s" % (type(e).__name__, str(e)[:60]), False
+        if isinstance(toks, str) or len(set(toks)) != len(toks) or not undefined:
+            res.violate("C12:callable-default-not-fresh", "a callable default of an item schema was not evaluated anew for every item built from a map (two items share one result), or "
+                        "the items report the field as user-defined", dict(case, tokens=repr(toks)[:200]))
+
 def run(ctx, n_quick=250, n_thorough=8000):
     res = Result()
+    guard(res, "C12", dynamic_reset_and_item_defaults_stream, ctx, res)
     guard(res, "C12", refused_write_hook_stream, ctx, res)
     guard(res, "C12", lambda: P.run_stream(ctx, res, "C12", ctx.n(n_quick, n_thorough), oracle, gen_ops=gen_ops))
     guard(res, "C12", callable_stream, ctx, res, ctx.n(3, 30))
